@@ -277,6 +277,19 @@ pub fn fixed_cases(tree: &Tree) -> Vec<Case> {
             family: "fixed-loc".into(),
         });
     }
+    // Empty ranges of multi-byte element types, un-optimised so that the constant the
+    // loader built is the one the alignment monitor sees (an empty read yields a
+    // buffer whose dangling pointer is only byte-aligned).
+    for (dtype, loc, off) in [(FLOAT, "empty.data", 0u64), (INT32, "empty.data", 0), (FLOAT, "w.data", 20483), (INT32, "w.data", 16), (FLOAT, "w.data", 0)] {
+        for optimize in [false, true] {
+            out.push(Case {
+                tensors: vec![TensorSpec { dtype, dims: vec![0], location: Some(loc.as_bytes().to_vec()), offset: Some(off.to_string()), length: Some("0".into()), extra: vec![] }],
+                optimize,
+                model_path: "abs".into(),
+                family: "fixed-empty".into(),
+            });
+        }
+    }
     // location key absent
     out.push(Case {
         tensors: vec![TensorSpec { dtype: UINT8, dims: vec![4], location: None, offset: Some("0".into()), length: Some("4".into()), extra: vec![] }],
